@@ -217,7 +217,11 @@ func (v *Verifier) addEffectSweep(label string, sites func(fn *ssa.Function) []s
 		}
 		name := "sweep/" + strings.Replace(k, ":", ".", 1) + "/" + label
 		ob := &Obligation{Name: name, Func: k, Label: label, Kind: "sweep", Goal: TTrue}
-		if !v.coveredByCallers(fn, callers, 0, map[*ssa.Function]bool{}) {
+		if !v.coveredByCallers(fn, callers, 0, map[*ssa.Function]bool{}) && v.sweepDefault != nil && v.sweepDefault(fn, callers) {
+			// the function (and its uncontracted callers) got the property's default
+			// contract, which is checked against the bodies like any other
+			ob.Notes = []string{"not under a written contract: default contract applied"}
+		} else if !v.coveredByCallers(fn, callers, 0, map[*ssa.Function]bool{}) {
 			ob.Goal = TFalse
 			var notes []string
 			for _, s := range ss {
@@ -285,4 +289,227 @@ func (v *Verifier) hasClause(key, label string) bool {
 		}
 	}
 	return false
+}
+
+// whitelistWriteSites: stores into Config.Storage.SessionStateWhitelistKeys (the
+// field itself, or an element of the slice read from it).
+func (p *Program) whitelistWriteSites(fn *ssa.Function) []sweepSite {
+	const field = "SessionStateWhitelistKeys"
+	isField := func(v ssa.Value) bool {
+		fa, ok := v.(*ssa.FieldAddr)
+		if !ok {
+			return false
+		}
+		st, ok := fa.X.Type().Underlying().(*types.Pointer)
+		if !ok {
+			return false
+		}
+		s, ok := st.Elem().Underlying().(*types.Struct)
+		return ok && fa.Field < s.NumFields() && s.Field(fa.Field).Name() == field
+	}
+	var fromField func(v ssa.Value, d int) bool
+	fromField = func(v ssa.Value, d int) bool {
+		if d > 6 {
+			return false
+		}
+		switch x := v.(type) {
+		case *ssa.UnOp:
+			return isField(x.X)
+		case *ssa.Slice:
+			return fromField(x.X, d+1)
+		case *ssa.Phi:
+			for _, e := range x.Edges {
+				if fromField(e, d+1) {
+					return true
+				}
+			}
+		}
+		return false
+	}
+	var out []sweepSite
+	for _, b := range fn.Blocks {
+		for _, ins := range b.Instrs {
+			st, ok := ins.(*ssa.Store)
+			if !ok {
+				continue
+			}
+			if isField(st.Addr) {
+				out = append(out, sweepSite{p.posOf(ins), "assignment to Config.Storage." + field})
+			} else if ia, ok := st.Addr.(*ssa.IndexAddr); ok && fromField(ia.X, 0) {
+				out = append(out, sweepSite{p.posOf(ins), "element store into Config.Storage." + field})
+			}
+		}
+	}
+	return out
+}
+
+// handlerOf resolves the function registered as an event handler (a bound
+// method value, a function literal or a named function).
+func (p *Program) handlerOf(v ssa.Value) *ssa.Function {
+	switch x := v.(type) {
+	case *ssa.Function:
+		return x
+	case *ssa.MakeClosure:
+		f, _ := x.Fn.(*ssa.Function)
+		if f == nil {
+			return nil
+		}
+		if strings.HasSuffix(f.Name(), "$bound") {
+			if m, ok := f.Object().(*types.Func); ok {
+				if mf := p.SSA.FuncValue(m); mf != nil {
+					return mf
+				}
+			}
+			return nil
+		}
+		return f
+	case *ssa.ChangeType:
+		return p.handlerOf(x.X)
+	}
+	return nil
+}
+
+// eventRegSites: registrations of handlers for the events a property is
+// sensitive to, whose handler is not under contract for the property.
+func (v *Verifier) eventRegSites(when map[string][]string) func(fn *ssa.Function) []sweepSite {
+	p := v.Prog
+	evName := func(c ssa.Value) string {
+		k, ok := c.(*ssa.Const)
+		if !ok || k.Value == nil || k.Value.Kind() != constant.Int {
+			return ""
+		}
+		n, _ := constant.Int64Val(k.Value)
+		root := p.ByPkg[p.Module]
+		if root == nil {
+			return ""
+		}
+		for _, name := range root.Pkg.Scope().Names() {
+			if c, ok := root.Pkg.Scope().Lookup(name).(*types.Const); ok && strings.HasPrefix(name, "Event") && c.Type().String() == abPkg+".Event" {
+				if m, ok := constant.Int64Val(c.Val()); ok && m == n {
+					return name
+				}
+			}
+		}
+		return ""
+	}
+	return func(fn *ssa.Function) []sweepSite {
+		var out []sweepSite
+		for _, b := range fn.Blocks {
+			for _, ins := range b.Instrs {
+				c, ok := ins.(ssa.CallInstruction)
+				if !ok {
+					continue
+				}
+				callee := c.Common().StaticCallee()
+				if callee == nil || callee.Pkg == nil || callee.Pkg.Pkg.Path() != abPkg || callee.Signature.Recv() == nil {
+					continue
+				}
+				if !strings.HasSuffix(callee.Signature.Recv().Type().String(), ".Events") || (callee.Name() != "Before" && callee.Name() != "After") {
+					continue
+				}
+				args := c.Common().Args
+				if len(args) < 3 {
+					continue
+				}
+				ev := evName(args[1])
+				sensitive := ev == "" // a non-constant event may be any event
+				for _, e := range when[callee.Name()] {
+					if e == ev {
+						sensitive = true
+					}
+				}
+				if !sensitive {
+					continue
+				}
+				h := p.handlerOf(args[2])
+				if h != nil && v.underContractFor(p.funcKey(h)) {
+					continue
+				}
+				if h != nil && p.inRepo(h) {
+					// a handler nobody wrote a contract for gets the default one
+					// (transparency), checked against its body like any other
+					v.defaultHandlerContract(p.funcKey(h))
+					continue
+				}
+				out = append(out, sweepSite{p.posOf(ins), "registers an unresolved function value for " + callee.Name() + "(" + ev + "): cannot be put under contract for " + v.Prop})
+			}
+		}
+		return out
+	}
+}
+
+// defaultHandlerContract: the contract every event handler has unless its
+// contract file says something more specific for the property: when it
+// neither fails nor panics it does not take over the response and changes
+// nothing a client could observe.
+const defaultHandlerClause = `(!panics && result.1 == nil) ==> (result.0 == false && !emits Redirect(_) && !emits Respond(_, _, _) && ` +
+	`!emits Sess.Put(_, _) && !emits Sess.Del(_) && !emits Sess.DelAll(_) && !emits Cook.Put(_, _) && !emits Cook.Del(_) && ` +
+	`!emits HeaderSet(_, _, _) && !emits WriteHeader(_, _) && !emits Write(_, _) && !emits HTTPRedirect(_, _, _))`
+
+func (v *Verifier) defaultHandlerContract(key string) {
+	fc := v.CS.Funcs[key]
+	if fc == nil {
+		rel := key
+		if i := strings.Index(key, ":"); i >= 0 {
+			rel = key[:i]
+		}
+		fc = &FuncContract{Pkg: rel, Key: key, File: "(default event-handler contract)", Options: map[string]string{}}
+		v.CS.Funcs[key] = fc
+	}
+	for _, c := range fc.Clauses {
+		if c.Label == "unlisted_handler_transparent" {
+			return
+		}
+	}
+	n, err := parseExpr(defaultHandlerClause)
+	if err != nil {
+		v.Errors = append(v.Errors, "default handler contract: "+err.Error())
+		return
+	}
+	fc.Clauses = append(fc.Clauses, &Clause{Kind: "ensures", Label: "unlisted_handler_transparent", Props: []string{v.Prop}, Text: defaultHandlerClause, Expr: n})
+	v.VerifyFunc(fc)
+}
+
+// defaultSecretsContract: C17's default contract for a function that writes to
+// the log or to storage and has no written contract - "no_secret_leak:
+// secrets_clean" - applied to the function and to its callers that are not
+// under contract either (a secret may be handed down by them).
+func (v *Verifier) defaultSecretsContract(fn *ssa.Function, callers map[*ssa.Function][]*ssa.Function) bool {
+	seen := map[*ssa.Function]bool{}
+	var todo []*ssa.Function
+	var walk func(f *ssa.Function, d int)
+	walk = func(f *ssa.Function, d int) {
+		if seen[f] || d > 4 || !v.Prog.inRepo(f) || f.Blocks == nil {
+			return
+		}
+		seen[f] = true
+		key := v.Prog.funcKey(f)
+		if strings.HasPrefix(key, "mocks:") || v.underContractFor(key) {
+			return
+		}
+		todo = append(todo, f)
+		for _, c := range callers[f] {
+			walk(c, d+1)
+		}
+	}
+	walk(fn, 0)
+	n, err := parseExpr("secrets_clean")
+	if err != nil {
+		return false
+	}
+	for _, f := range todo {
+		key := v.Prog.funcKey(f)
+		fc := v.CS.Funcs[key]
+		if fc == nil {
+			rel := key
+			if i := strings.Index(key, ":"); i >= 0 {
+				rel = key[:i]
+			}
+			fc = &FuncContract{Pkg: rel, Key: key, File: "(default C17 contract)", Options: map[string]string{}}
+			v.CS.Funcs[key] = fc
+		}
+		fc.Clauses = append(fc.Clauses, &Clause{Kind: "ensures", Label: "no_secret_leak", Props: []string{v.Prop}, Text: "secrets_clean", Expr: n})
+		v.VerifyFunc(fc)
+	}
+	return true
 }
